@@ -13,6 +13,14 @@ CODEC_ASSUME = [
     "(their theorems are the listed `_partial` ones)",
 ]
 
+GOTYPE_ASSUME = [
+    "the Unfolder/Fold mirror is the code only as far as the differential correspondence shows (sampling; distribution in this file)",
+    "type universe of the mirror: the 15 primitive kinds, []T, map[string]T, *T, interface{}, and the struct menagerie "
+    "declared in harness/sfh/ops_unfold.go (described to Lean by op `unf-type`, compared with reflect on every run); "
+    "user unfolders and Expander are outside the model",
+    "raw pointers / unsafe offsets are modelled as paths into the target value (exact under the LIFO discipline every run obeys)",
+]
+
 def P(design, technique, explanation, level_text, tb=None, assumptions=None, partial=None):
     return dict(design=design, technique=technique, explanation=explanation, level_text=level_text,
                 trusted_base=COMMON_TB + (tb or []), assumptions=assumptions or CODEC_ASSUME, partial=partial or "")
@@ -96,6 +104,38 @@ PROPS = {
    "expansion on two fresh encoders inside arbitrary contexts); oracle: same result class, same depth, both decode to "
    "the stream's value.",
    "Kernel-checked for the CBOR encoder; UBJSON/JSON by mirror + correspondence + oracle."),
+ "C13": P("DESIGN.md 7 C13",
+   "Lean 4 proof (ignore state machine swallows one complete value of any shape and restores the context exactly) + differential correspondence of the Unfolder mirror + specification oracle",
+   "unknown_member_skipped / unknown_members_skipped / ignore_swallows_value: for every context (target, stacks, buffers, "
+   "cache), every struct state and every member value (any nesting depth, announced lengths, element types, strings and "
+   "keys by value or by reference) a member without a matching field is consumed without error and leaves the context "
+   "- the target included - exactly as before the key (mutual structural induction over value trees, no bound). "
+   "Correspondence: ops `unf` (stream x target type x initial target value, depths of the six stacks after every event, "
+   "final target), `unf-type` (reflect description of every menagerie type vs the Lean descriptor). Oracle (SF/Gotype/"
+   "UnfoldSpec.lean, independent of the mirror): interface{} targets receive exactly the generic value of the stream "
+   "(typed slices/maps where announced); typed targets: `assign` (numeric conversions when the value fits, unmentioned "
+   "fields untouched, unknown members skipped).",
+   "Kernel-checked skip clause over all contexts and member values; value-assignment clauses by mirror + correspondence + oracle.",
+   tb=["model: SF/Gotype/Unfold.lean (mirror of gotype/unfold*.go), SF/Gotype/UTypes.lean, Conv.lean, Menagerie.lean; spec: SF/Gotype/UnfoldSpec.lean"],
+   assumptions=GOTYPE_ASSUME,
+   partial="generic-value theorem for interface{} targets and the typed-assignment theorem not yet proved (decided by oracle)"),
+ "C14": P("DESIGN.md 7 C14",
+   "Lean 4 proof (pre-allocation bound for every announced length; Reset+SetTarget = fresh from any context) + regenerated SSA facts about allocation sites + differential correspondence over mismatches/abandon positions",
+   "prealloc_bounded / prealloc_exact / typed_prealloc_le: an announced length allocates min(l,1024) elements for every l; "
+   "GenCheck.unfoldAllocSites (regenerated from SSA on every run): every make/MakeSlice/MakeMapWithSize in gotype/unfold*.go "
+   "has a constant size or one that went through arrPreallocLen. reset_then_setTarget_is_fresh: from ANY context (document "
+   "abandoned at any event, any error) Reset+SetTarget equals SetTarget on a new Unfolder with the same key cache. "
+   "Correspondence: `unf` on every kind of shape mismatch at every depth (scalar for container, array for object, key "
+   "where none is expected, wrong element kind), announced lengths up to 2^63-1 not backed by elements, invalid type "
+   "codes; `unf-reuse` = histories of documents on one Unfolder, each abandoned at every position or run to its error, "
+   "followed by probe documents compared with a fresh Unfolder. The mirror has an explicit panic outcome for every "
+   "empty-stack pop, nil dereference and invalid type code. Oracle: never panic/crash/hang; reused = fresh; depths idle.",
+   "Kernel-checked allocation bound and reset law; no-panic over all (stream, target) pairs by mirror + correspondence + oracle.",
+   tb=["model: SF/Gotype/Unfold.lean; facts: SF/Gen/Alloc.lean regenerated by sffacts (x/tools SSA)"],
+   assumptions=GOTYPE_ASSUME,
+   partial="no-panic theorem over all streams x targets (stack-discipline invariant of the six stacks) not yet proved; "
+           "writes outside the target cannot be exhibited by the model (memory safety of unsafe offsets is a runtime fact: "
+           "covered by the unf-type descriptor comparison and Go's checkptr in the race run only)"),
  "C16": P("DESIGN.md 7 C16",
    "Lean 4 proof (encoder: success iff no Write failed; parser: a visitor error at event k is returned and is the last event, for every input, chunking and fault index) + exhaustive fault-index correspondence",
    "encoder_reports_write_errors: with a writer failing from its k-th call on, the CBOR encoder reports success iff no "
